@@ -90,7 +90,7 @@ def build(case):
 def _problem(draw, vector=False):
     r = draw(st.sampled_from([1, 2, 3, 4, 5, 6, 7, 8]))
     return {"r": r, "n": 1 if vector else draw(st.integers(1, 5)), "m": r + draw(st.integers(0, 5)),
-            "seed": draw(gen.seeds), "kappa": draw(st.sampled_from([1.0, 1.5, 5.0, 10.0, 20.0, 30.0, 30.0])),
+            "seed": draw(gen.seeds), "kappa": draw(st.sampled_from([1.0, 1.5, 5.0, 10.0, 20.0, 30.0])),
             "design": draw(st.sampled_from(["signed", "signed", "abs"])),
             "p0": draw(st.sampled_from([0.0, 0.3, 0.5, 0.5, 0.7, 1.0])),
             "pull": draw(st.sampled_from([0.0, 0.5, 1.0, 2.0])),
@@ -267,7 +267,7 @@ def o_hals(group):
     def oracle(case):
         U, M, cond, G, B, sp, rd = _hals_setup(case)
         xref, gref = ref_nnls(U, M, sp, rd)
-        its = 3000 if cond <= 20 else 6000
+        its = 600 if cond <= 5 else 1500 if cond <= 10 else 3000 if cond <= 20 else 6000
         eps = case.get("eps") or 0.0
         if group == "kkt":
             ver = lambda x: kkt(x, G, B, sp, rd, eps, eps * (1 + 1e-12), "hals")
@@ -328,7 +328,7 @@ def o_fista(group):
         sp = 0.0 if case["sp"] is None else case["sp"]
         rd = 0.0 if case["rd"] is None else case["rd"]
         xref, gref = ref_nnls(U, M, sp, rd)
-        its = 5000 if cond <= 10 else 12000
+        its = 1500 if cond <= 5 else 5000 if cond <= 10 else 12000
         eps = 1e-8 if case["eps"] is None else case["eps"]
         if group == "kkt":
             ver = lambda x: kkt(x, G, B, sp, rd, 0.0, 2 * eps, "fista")
@@ -346,10 +346,10 @@ def o_fista(group):
 def _fista_kron_case(draw):
     """UtU given as a list of Gram matrices acting on the modes of a matrix-shaped unknown
     (the form used by non_negative_tucker_hals for its core)"""
-    c = {"r1": draw(st.integers(1, 3)), "r2": draw(st.integers(1, 3)), "seed": draw(gen.seeds),
+    c = {"r1": draw(st.sampled_from([1, 2, 2, 3, 3])), "r2": draw(st.sampled_from([1, 2, 3, 3])), "seed": draw(gen.seeds),
          "k1": draw(st.sampled_from([1.0, 2.0, 5.0])), "k2": draw(st.sampled_from([1.0, 2.0, 5.0])),
          "d1": draw(st.sampled_from(["signed", "abs"])), "d2": draw(st.sampled_from(["signed", "abs"])),
-         "p0": draw(st.sampled_from([0.0, 0.4, 0.8])), "pull": draw(st.sampled_from([0.0, 0.5, 2.0])),
+         "p0": draw(st.sampled_from([0.0, 0.3, 0.5, 0.7])), "pull": draw(st.sampled_from([0.0, 0.5, 2.0])),
          "noise": draw(st.sampled_from([0.0, 0.01, 0.3])),
          "warm": draw(st.sampled_from([None, "pos", "sparse"]))}
     c["m1"] = c["r1"] + draw(st.integers(0, 3))
@@ -481,14 +481,14 @@ def subchecks(tier):
     variants = [("cold", "plain"), ("cold", "l1"), ("cold", "ridge"), ("cold", "l1ridge"), ("warm", "plain"), ("warm", "pen")]
     for init, var in variants:
         for grp in ("kkt", "ref"):
-            subs.append(SubCheck(f"hals/{init}/{var}/{grp}", _hals_case(var, init), o_hals(grp), quick=60, thorough=600,
+            subs.append(SubCheck(f"hals/{init}/{var}/{grp}", _hals_case(var, init), o_hals(grp), quick=40, thorough=500,
                                  budget_quick=75))
-            subs.append(SubCheck(f"fista/{init}/{var}/{grp}", _fista_case(var, init), o_fista(grp), quick=60, thorough=600,
+            subs.append(SubCheck(f"fista/{init}/{var}/{grp}", _fista_case(var, init), o_fista(grp), quick=40, thorough=500,
                                  budget_quick=75))
-    subs.append(SubCheck("hals/epsilon/kkt", _hals_case("pen", "any", eps=True), o_hals("kkt"), quick=60, thorough=600, budget_quick=75))
-    subs.append(SubCheck("hals/cold_zero_init/kkt", _hals_case("plain", "cold", zero_init=True), o_hals("kkt"), quick=60, thorough=600, budget_quick=75))
-    subs.append(SubCheck("hals/cold_zero_init/ref", _hals_case("pen", "cold", zero_init=True), o_hals("ref"), quick=60, thorough=600, budget_quick=75))
-    subs.append(SubCheck("fista/kron_list/kkt_ref", _fista_kron_case(), o_fista_kron, quick=80, thorough=800, budget_quick=75))
+    subs.append(SubCheck("hals/epsilon/kkt", _hals_case("pen", "any", eps=True), o_hals("kkt"), quick=40, thorough=500, budget_quick=75))
+    subs.append(SubCheck("hals/cold_zero_init/kkt", _hals_case("plain", "cold", zero_init=True), o_hals("kkt"), quick=40, thorough=500, budget_quick=75))
+    subs.append(SubCheck("hals/cold_zero_init/ref", _hals_case("pen", "cold", zero_init=True), o_hals("ref"), quick=40, thorough=500, budget_quick=75))
+    subs.append(SubCheck("fista/kron_list/kkt_ref", _fista_kron_case(), o_fista_kron, quick=60, thorough=800, budget_quick=75))
     for init in ("cold", "warm"):
         for grp in ("kkt", "ref"):
             subs.append(SubCheck(f"active_set/{init}/{grp}", _as_case(init), o_as(grp), quick=400, thorough=4000))
